@@ -104,6 +104,7 @@ struct Model {
   Model() : slots(NSLOTS) {}
 };
 
+struct Watch { uintptr_t lo, hi; int slot; bool freed = false, purged = false; long freed_op = -1; long freed_ms = 0; bool saw_collect = false, saw_free_same_seg = false, spoiled = false; };
 struct AreaStat { size_t areas = 0, full = 0, holes = 0, single = 0, used_blocks = 0; };
 
 struct Exec;
@@ -116,6 +117,7 @@ struct Exec {
   bool check_own = false;       // C10 ownership sweeps
   bool police_purge = false;    // C13: purge ranges must not hit live blocks
   bool allow_null = false;      // OS faults armed → NULL is acceptable
+  std::vector<Watch> watches; long purge_calls_seen = 0; long opt_purge_delay = 10, opt_purge_mult = 10; uintptr_t last_free_near_seg = 0;   // C18
   bool forced_abandon = false;  // target_segments_per_thread >= 2
   bool visit_abandoned_on = false;
   bool known_f5_off = false;    // replay of the F5 demonstration: do not exclude
@@ -183,6 +185,7 @@ struct Exec {
   void model_remove(int s, bool dirtied) {
     Blk& b = m.slots[s];
     m.live.erase((uintptr_t)b.p); m.nlive--; b.live = false;
+    for (auto& w : watches) if (w.slot == s && !w.freed && w.lo == (uintptr_t)b.p) { w.freed = true; w.freed_op = opi; w.freed_ms = vf_clock_now_ms(); }
     m.freed_addrs.insert((uintptr_t)b.p);
     if (dirtied && b.written > 0) m.dirty[(uintptr_t)b.p & ~(uintptr_t)0xFFFF] = 1;   // remember the 64 KiB slice as dirtied
   }
@@ -220,7 +223,7 @@ struct Exec {
   void op_alloc(const Op& op); void op_free(const Op& op); void op_realloc(const Op& op); void op_expand(const Op& op);
   void op_fill(const Op& op); void op_rfree(const Op& op, bool threaded); void op_talloc(const Op& op);
   void op_heap(const Op& op); void op_visit(const Op& op); void op_census(const Op& op); void op_edge(const Op& op); void op_arena(const Op& op);
-  void op_opt(const Op& op); void op_misuse(const Op& op); void op_owncheck();
+  void op_opt(const Op& op); void op_misuse(const Op& op); void op_owncheck(); void op_c18(const Op& op);
   uint8_t* call_alloc(const std::string& f, int h, size_t n, size_t c, size_t a, size_t o, bool& zeroing, size_t& req, size_t& eff_a, size_t& eff_o, bool& valid);
   void free_slot(int s, const std::string& f);
   void finish();
